@@ -1747,7 +1747,13 @@ func (g *bundleGen) plantCollideOpsOnly() {
 	if _, exists := rd.paths[pth]; exists {
 		return
 	}
-	params := []any{obj{"name": "body", "in": "body", "schema": ref()}}
+	bodySchema, nOps := ref(), r.Range(1, 2)
+	if r.P(50) {
+		// the path-level body parameter holds an INLINE complex schema, a property of which refers to the import; with two
+		// operations under the path that schema is named once per operation
+		bodySchema, nOps = obj{"type": "object", "properties": obj{"x": ref(), "n": g.primitive()}}, 2
+	}
+	params := []any{obj{"name": "body", "in": "body", "schema": bodySchema}}
 	if strings.Contains(pth, "{") {
 		pn := pth[strings.Index(pth, "{")+1 : strings.Index(pth, "}")]
 		params = append([]any{obj{"name": pn, "in": "path", "required": true, "type": "string"}}, params...)
@@ -1755,7 +1761,7 @@ func (g *bundleGen) plantCollideOpsOnly() {
 	pi := obj{"parameters": params}
 	ms := append([]string(nil), methods...)
 	r.Shuffle(len(ms), func(i, j int) { ms[i], ms[j] = ms[j], ms[i] })
-	for _, m := range ms[:r.Range(1, 2)] {
+	for _, m := range ms[:nOps] {
 		op := obj{"responses": obj{r.Pick([]string{"200", "201", "default"}): obj{"description": "ok", "schema": ref()}}}
 		if !g.on("noOpIDs") {
 			id := "opsOnly" + upperFirst(m)
